@@ -86,7 +86,13 @@ P.update({
             "Each constructor runs in a child process; a hang (30 s+) is reported with gdb backtraces. Windows code paths are out of reach.", "4 C16"),
 })
 
-CLAIMED = ["C01", "C02", "C03", "C04", "C05", "C06", "C07", "C10", "C11", "C12", "C13", "C14", "C15", "C16", "C17", "C19", "C20"]
+P.update({
+    "C18": ("exploration", "differential runtime monitor: the real `varlink bridge` process between a scripted client and scripted services, compared frame by frame with direct connections; byte-exact oracle for upgraded sessions; exit-status/termination monitor",
+            "Four bridge modes (resolver lookup with -R, --connect, --activate with a real socket-activated service, --bridge through a second bridge) x request sequences that switch between three scripted services (plain, streaming, upgrade-capable) x client behaviours (one at a time, pipelined, random segmentation) x upgraded sessions with 0 B-64 KiB payload after the upgrade reply or in the same write: frames on the bridge's stdout must equal the direct replies (GetInfo: the configured resolver's), upgraded bytes must arrive exactly once on the right side, and after the client closes the bridge must exit 0 within a bound; a client that writes and closes at once must still have every byte forwarded.",
+            "Scripted services are stateless Python fakes; replies not yet produced when the client closes early are not required by the statement (reported as info counters).", "4 C18"),
+})
+
+CLAIMED = ["C01", "C02", "C03", "C04", "C05", "C06", "C07", "C10", "C11", "C12", "C13", "C14", "C15", "C16", "C17", "C18", "C19", "C20"]
 
 ALL = ["C%02d" % i for i in range(1, 21)]
 
